@@ -81,6 +81,9 @@ def _awkward():
 AWKWARD = _awkward()
 
 
+_HANGS = {}
+
+
 def budget_for(vs):
     from ..core import jsize
     return 200_000 + 2_000 * jsize(vs)
@@ -122,10 +125,18 @@ def run_case(case):
         # the wall clock ran out before the LINE budget did: time spent inside one interpreter operation (int(Decimal('1E+1000000')) takes
         # 30 s in CPython itself), not a loop in the library - inconclusive, counted, never a verdict
         return {"status": "slow-inconclusive", "fails": []}
+    if out[0] == "hang" and _HANGS.get(out[1], 0) >= 2:
+        # the same place was confirmed as a hang twice already in this process: same bucket, no 50x re-run (keeps a broken tree from costing minutes)
+        res["fails"].append((f"hang@{out[1]}", {"where": out[1], "budget": b, "confirmed_by_rerun": False}))
+        return res
     if out[0] == "hang":
         x2 = codec.decode(vs)
         out2 = oracle.outcome(fn, x2, line_budget=b * 50, backstop=30)
-        if out2[0] == "hang" and out2[1] is not None and out2[1] != "wall-clock-backstop":
+        from ..watchdog import WATCH
+        # the 50x re-run was stopped by its line budget, or by the wall clock after it had already executed many times the first
+        # budget inside the library: still looping (a wall-clock stop with few lines executed is time inside one operation)
+        if out2[0] == "hang" and ((out2[1] is not None and out2[1] != "wall-clock-backstop") or WATCH.count > 10 * b):
+            _HANGS[out[1]] = _HANGS.get(out[1], 0) + 1
             res["fails"].append((f"hang@{out[1]}", {"where": out[1], "budget": b}))
         else:
             res["status"] = "slow"
